@@ -1645,7 +1645,8 @@ def _k_holders(g, shapes=None, cubic=False):
     if g.thorough:
         shapes = list(shapes) + ([(3, 3), (2, 2, 2, 2)] if cubic else [(3,), (2, 3), (2, 2, 2, 2)])
     for sh in shapes:
-        ws = [("general", 2, [2.0, -1.0]), ("unit", 2, [1.0, 1.0])]
+        # "signs": every weight of magnitude one, not all +1 (e.g. the difference of two default-weight objects)
+        ws = [("general", 2, [2.0, -1.0]), ("unit", 2, [1.0, 1.0]), ("signs", 2, [1.0, -1.0])]
         if g.thorough:
             ws += [("rank1", 1, [3.0]), ("rank3", 3, [2.0, -1.0, 3.0]), ("zero-weight", 2, [0.0, 2.0])]
         for wname, R, w in ws:
